@@ -110,20 +110,20 @@ func parseRangeHeader(s string) (*ObjectRangeRequest, error) {
 	if start == "" {
 		o.FromEnd = true
 
-		i, err := strconv.ParseInt(end, 10, 64)
+		i, err := parseBytePos(end)
 		if err != nil {
 			return nil, ErrInvalidRange
 		}
 		o.End = i
 
 	} else {
-		i, err := strconv.ParseInt(start, 10, 64)
+		i, err := parseBytePos(start)
 		if err != nil || i < 0 {
 			return nil, ErrInvalidRange
 		}
 		o.Start = i
 		if end != "" {
-			i, err := strconv.ParseInt(end, 10, 64)
+			i, err := parseBytePos(end)
 			if err != nil || o.Start > i {
 				return nil, ErrInvalidRange
 			}
@@ -134,4 +134,18 @@ func parseRangeHeader(s string) (*ObjectRangeRequest, error) {
 	}
 
 	return &o, nil
+}
+
+// parseBytePos parses a position or suffix length of a byte range: decimal
+// digits only, where strconv.ParseInt also takes a sign.
+func parseBytePos(s string) (int64, error) {
+	if s == "" {
+		return 0, ErrInvalidRange
+	}
+	for i := 0; i < len(s); i++ {
+		if s[i] < '0' || s[i] > '9' {
+			return 0, ErrInvalidRange
+		}
+	}
+	return strconv.ParseInt(s, 10, 64)
 }
